@@ -47,20 +47,31 @@ package header
 //@ define isHopByHop(k string) bool = k == "Connection" || k == "Keep-Alive" || k == "Proxy-Authenticate" || k == "Proxy-Authorization" || k == "Proxy-Connection" || k == "Te" || k == "Trailer" || k == "Transfer-Encoding" || k == "Upgrade"
 
 // Every hop-by-hop field is gone afterwards - in particular the client's
-// Proxy-Authorization never travels further - and nothing else is added or altered.
+// Proxy-Authorization never travels further - and nothing else is added or
+// altered; a field that is neither hop-by-hop nor nominated by a Connection
+// field (C01: every end-to-end field) stays, with the same values.
+//@ pred nominated(h http.Header, k string) = ("Connection" in h) && exists i int, j int {splitAt(h["Connection"][i], ",", j)} :: 0 <= i && i < len(h["Connection"]) && 0 <= j && j < splitN(h["Connection"][i], ",") && canon(trimSpace(splitAt(h["Connection"][i], ",", j))) == k
 //@ func removeHopByHopHeaders
 //@ property C06 C01 C02
 //@ requires header != nil
 //@ modifies header[*], elems(string)
 //@ ensures forall k string :: isHopByHop(k) ==> !(k in header)
 //@ ensures forall k string :: (k in header) ==> old(k in header) && header[k] == old(header[k])
+//@ ensures forall k string :: old(k in header) && !isHopByHop(k) && !old(nominated(header, k)) ==> (k in header)
 //@ loop 0:
 //@   invariant forall k string :: (k in header) ==> old(k in header) && header[k] == old(header[k])
+//@   invariant forall k string :: old(k in header) && !old(nominated(header, k)) ==> (k in header)
+//@   invariant (old("Connection" in header) ==> rangeover == old(header["Connection"])) && (!old("Connection" in header) ==> len(rangeover) == 0)
+//@   invariant forall i int {rangeover[i]} :: 0 <= i && i < len(rangeover) ==> rangeover[i] == old(rangeover[i])
 //@ loop 1:
 //@   invariant forall k string :: (k in header) ==> old(k in header) && header[k] == old(header[k])
+//@   invariant forall k string :: old(k in header) && !old(nominated(header, k)) ==> (k in header)
+//@   invariant len(rangeover) == splitN(vs, ",") && forall j int {rangeover[j]} :: 0 <= j && j < len(rangeover) ==> rangeover[j] == splitAt(vs, ",", j)
+//@   invariant old("Connection" in header) && exists i int :: 0 <= i && i < old(len(header["Connection"])) && vs == old(header["Connection"][i])
 //@ loop 2:
 //@   invariant forall k string :: (k in header) ==> old(k in header) && header[k] == old(header[k])
 //@   invariant forall j int :: 0 <= j && j < 9 ==> (j <= rangeindex ==> !(hopByHopHeaders[j] in header))
+//@   invariant forall k string :: old(k in header) && !isHopByHop(k) && !old(nominated(header, k)) ==> (k in header)
 
 //@ func (*hopByHopModifier).ModifyRequest
 //@ property C06 C01
@@ -96,6 +107,28 @@ package header
 //@ func NewForwardedModifier
 //@ trusted
 //@ ensures result != nil
+
+// The forwarded modifier (C01): CONNECT is left alone; otherwise the client
+// address is appended to X-Forwarded-For, X-Forwarded-Proto/Host/Url are filled
+// in only when absent or empty, and no other field is touched.
+//@ axiom canon("X-Forwarded-For") == "X-Forwarded-For" && canon("X-Forwarded-Proto") == "X-Forwarded-Proto" && canon("X-Forwarded-Host") == "X-Forwarded-Host" && canon("X-Forwarded-Url") == "X-Forwarded-Url"
+//@ define isXFwd(k string) bool = k == "X-Forwarded-For" || k == "X-Forwarded-Proto" || k == "X-Forwarded-Host" || k == "X-Forwarded-Url"
+//@ pred hget(h http.Header, k string) = ite((k in h) && len(h[k]) > 0, h[k][0], "")
+//@ func NewForwardedModifier$1
+//@ property C01
+//@ requires req != nil && req.Header != nil && req.URL != nil
+//@ modifies req.Header[*], elems(string)
+//@ ensures result == nil
+//@ ensures forall k string :: !isXFwd(k) ==> (k in req.Header) == old(k in req.Header) && req.Header[k] == old(req.Header[k])
+//@ ensures req.Method == "CONNECT" ==> forall k string :: (k in req.Header) == old(k in req.Header) && req.Header[k] == old(req.Header[k])
+//@ ensures req.Method != "CONNECT" && old(hget(req.Header, "X-Forwarded-Proto")) != "" ==> req.Header["X-Forwarded-Proto"] == old(req.Header["X-Forwarded-Proto"])
+//@ ensures req.Method != "CONNECT" && old(hget(req.Header, "X-Forwarded-Host")) != "" ==> req.Header["X-Forwarded-Host"] == old(req.Header["X-Forwarded-Host"])
+//@ ensures req.Method != "CONNECT" && old(hget(req.Header, "X-Forwarded-Url")) != "" ==> req.Header["X-Forwarded-Url"] == old(req.Header["X-Forwarded-Url"])
+//@ ensures req.Method != "CONNECT" && old(hget(req.Header, "X-Forwarded-Proto")) == "" ==> hget(req.Header, "X-Forwarded-Proto") == req.URL.Scheme
+//@ ensures req.Method != "CONNECT" && old(hget(req.Header, "X-Forwarded-Host")) == "" ==> hget(req.Header, "X-Forwarded-Host") == req.Host
+//@ ensures req.Method != "CONNECT" ==> len(req.Header["X-Forwarded-For"]) == 1
+//@ ensures req.Method != "CONNECT" && old(hget(req.Header, "X-Forwarded-For")) == "" ==> hget(req.Header, "X-Forwarded-For") == ite(splitOK(req.RemoteAddr), splitHost(req.RemoteAddr), req.RemoteAddr)
+//@ ensures req.Method != "CONNECT" && old(hget(req.Header, "X-Forwarded-For")) != "" ==> hget(req.Header, "X-Forwarded-For") == old(hget(req.Header, "X-Forwarded-For")) + ", " + ite(splitOK(req.RemoteAddr), splitHost(req.RemoteAddr), req.RemoteAddr)
 
 //@ func NewBadFramingModifier
 //@ trusted
